@@ -47,7 +47,7 @@ Proof.
         -- rewrite Hp. exact Hg.
       * exfalso.
         assert (c09_inline_generic_class Kotlin pfx a = None) as Hc.
-        { apply (c09_class_none Kotlin pfx acrs pd Hknown). unfold c09_classes. apply in_or_app. right. apply in_or_app. right. apply in_map. exact Ha. }
+        { apply (c09_class_none Kotlin pfx acrs pd Hknown). unfold c09_classes. apply in_or_app. right. apply in_or_app. right. apply in_or_app. left. apply in_map. exact Ha. }
         unfold c09_inline_generic_class in Hc. rewrite Inl in Hc. unfold pfx in Hc. rewrite Hp in Hc. cbn [negb andb] in Hc.
         assert (c09_mentions_generic (agenerics a) (atype a) = true) as Hm; [|rewrite Hm in Hc; discriminate].
         unfold c09_mentions_generic. apply existsb_exists. exists (form, i'). split; [exact Hi0|]. cbn [snd]. apply c09_mem_str_in. exact Hg.
@@ -101,7 +101,7 @@ Proof.
   { intros it' Hit. apply Hperm in Hit. exact (c09_Forall2_in_l _ _ _ _ Em Hit). }
   constructor.
   - (* every entity has its definition *)
-    intros e He.
+    intros e He _.
     assert (exists d, In d (List.concat dss) /\ d_name (kt_obs d) = c09_def_name Kotlin pfx e) as (d & Hd & Hn).
     { unfold c09_entities in He. rewrite !in_app_iff, in_flat_map, !in_map_iff in He.
       destruct He as [(s & <- & Hs)|[(en & Hen & He)|(a & <- & Ha)]].
